@@ -458,7 +458,7 @@ def run(ctx):
         classes.add((o["fn"], "fault", o["failAt"]))
     for o in auths:
         classes.add((o["fn"], "auth", o["tamper"]))
-    ev.cov["evaluations"] = n + acc
+    ev.cov["evaluations"] = len(res)                  # executions of the real library (each judged twice: line + allocator trace)
     ev.cov["distinct_nontrivial"] = len(classes)
     ev.cov["rule"] = ("distinct (function, argument, boundary class below/valid/between/above [, second argument, its class]) of the swept calls + "
                       "(function, fault position k) of the allocation-failure runs + (function, tamper kind)")
